@@ -63,7 +63,9 @@ def main(argv):
     seed = int(os.environ.get('VERIF_SEED', '0') or 0)
     cfg = PROPERTIES[prop]
     t_start = time.time()
-    timeout = 10 if tier == 'quick' else 60
+    timeout = 10 if tier == 'quick' else 30
+    if tier == 'thorough':
+        smt.CACHE_DIR = None      # thorough: every obligation is solved afresh
     repo = os.environ.get('VERIF_REPO', '/repo')
     evdir = os.environ.get('VERIF_EVIDENCE_DIR') or os.path.join(VERIF, 'evidence')
     os.makedirs(evdir, exist_ok=True)
@@ -121,7 +123,10 @@ def main(argv):
             sat = [n for n, v in rr.get('per_solver', {}).items() if v['result'] == 'sat']
             o.result['agreed'] = len(uns) >= 2
             if sat and r.get('form') == 'ground':
+                # a second solver finds a model of a quantifier-free query another one refuted: not discharged
                 o.result['disagreement'] = sat
+                o.result['result'] = 'disagreement'
+                o.result['output'] = 'solvers disagree on a ground query: unsat by %s, sat by %s' % (uns, sat)
         with concurrent.futures.ThreadPoolExecutor(max_workers=5) as ex:
             list(ex.map(recheck, jobs))
     n_obl = 0
@@ -215,6 +220,17 @@ def main(argv):
                                'every obligation of it counts as failed'}, open(path, 'w'), indent=1)
             print('[%s] %s/%s FAILED: %s' % (prop, fnname, name, detail[:400]))
             print('VIOLATION property=%s replay=%s no-failing-input-found' % (prop, path))
+    canaries = None
+    agreement = None
+    if want_all:
+        agreement = {'confirmed_by_two_solvers': sum(1 for _, o in jobs if (o.result or {}).get('agreed')),
+                     'single_solver_only': sum(1 for _, o in jobs if (o.result or {}).get('result') == 'unsat' and not (o.result or {}).get('agreed')),
+                     'disagreements': sum(1 for _, o in jobs if (o.result or {}).get('disagreement'))}
+        if not os.environ.get('VERIF_NO_CANARIES') and not os.environ.get('VERIF_REPO'):
+            canaries = run_canaries(prop)
+            for c in canaries:
+                if c['status'] == 'MISSED':
+                    print('SELFTEST-MISS: must-fail change %s is no longer caught by %s (machinery regression, not a property violation)' % (c['id'], prop))
     wall = time.time() - t_start
     cov = {
         'obligations': n_obl, 'discharged': n_ok + len(kf_hit) * 0,
@@ -230,12 +246,66 @@ def main(argv):
         'bounded': cfg.get('bounded', []),
         'failed': [ob_key(o.name) if o is not None else kind for _, o, kind, _ in failed],
     }
+    if agreement is not None:
+        cov['cross_solver_agreement'] = agreement
+    if canaries is not None:
+        cov['must_fail_corpus'] = canaries
     ev = {'property_id': prop, 'tier': tier, 'seed': seed, 'level': 'proof', 'coverage': cov,
           'assumptions': sorted(assumptions | trusted), 'wall_s': round(wall, 2), 'violations': viol_n}
     json.dump(ev, open(evidence_path, 'w'), indent=1)
     print('%s %s: %d obligations, %d discharged, %d known findings, %d violations, %.1fs' %
           (prop, tier, n_obl, n_ok, len(kf_hit), viol_n, wall))
     return 1 if viol_n else 0
+
+
+def run_canaries(prop):
+    """thorough tier: every recorded must-fail change of this property (own corpus + confirmed seeded changes) is
+    applied to a scratch copy of the working tree and the QUICK check must report a violation there.  A change that no
+    longer applies (the code moved on) is skipped and says so."""
+    import shutil, subprocess, tempfile, concurrent.futures
+    items = []
+    mroot = os.path.join(VERIF, 'selftest', 'mutants')
+    for n in sorted(os.listdir(mroot)) if os.path.isdir(mroot) else []:
+        try:
+            meta = json.load(open(os.path.join(mroot, n, 'meta.json')))
+        except Exception:
+            continue
+        if meta.get('property') == prop:
+            items.append((n, os.path.join(mroot, n, 'patch.diff')))
+    sroot = os.path.join(VERIF, 'seeded')
+    known_missed = set()
+    try:
+        for r in json.load(open(os.path.join(sroot, 'RESULTS.json'))):
+            if r.get('status') != 'CAUGHT':
+                known_missed.add(r['id'])
+    except Exception:
+        pass
+    for n in sorted(os.listdir(sroot)) if os.path.isdir(sroot) else []:
+        if n.startswith(prop + '-') and os.path.exists(os.path.join(sroot, n, 'patch.diff')) and n not in known_missed:
+            items.append((n, os.path.join(sroot, n, 'patch.diff')))
+    repo = os.environ.get('VERIF_REPO', '/repo')
+
+    def one(it):
+        name, pd = it
+        d = tempfile.mkdtemp(prefix='wharf-canary-')
+        try:
+            subprocess.run(['rsync', '-a', '--exclude', '.git', repo + '/', d + '/'], check=True)
+            p = subprocess.run(['patch', '-p1', '-s', '-d', d, '-i', pd], stdout=subprocess.PIPE, stderr=subprocess.STDOUT)
+            if p.returncode != 0:
+                return {'id': name, 'status': 'SKIPPED (patch does not apply to this tree)'}
+            env = dict(os.environ, VERIF_REPO=d, VERIF_EVIDENCE_DIR=d + '/.evidence', VERIF_REPLAY_DIR=d + '/.replays', VERIF_JOBS='5')
+            c = subprocess.run([os.path.join(VERIF, 'bin', 'check'), prop, 'quick'], env=env, stdout=subprocess.PIPE,
+                               stderr=subprocess.STDOUT, universal_newlines=True)
+            failed = []
+            try:
+                failed = json.load(open(os.path.join(d, '.evidence', prop + '.json')))['coverage'].get('failed', [])
+            except Exception:
+                pass
+            return {'id': name, 'status': 'CAUGHT' if c.returncode == 1 else 'MISSED', 'failed': failed[:3]}
+        finally:
+            shutil.rmtree(d, ignore_errors=True)
+    with concurrent.futures.ThreadPoolExecutor(max_workers=3) as ex:
+        return list(ex.map(one, items))
 
 
 def write_evidence(path, prop, tier, seed, cfg, a, b, c, wall, broken=None):
